@@ -123,6 +123,7 @@ PROPS = {
             J("par1", "C04_sixteenk", timeout=1500, args=["-max-steps", "2000000000"], bound="one file of exactly 16384 / 16385 / 65535 / 65536 concrete bytes (the 16k-hash boundary, a 64 KiB multiple), 1 volume, every damage of the C04 scenario incl. appended byte"),
             J("par1", "C04_max_volumes", bound="one 2-byte file with the maximum of 99 volumes: all found; any one of volumes 1, 50, 98, 99 alone repairs the lost file"),
             J("par1", "C04_max_shards", timeout=1500, args=["-max-steps", "600000000"], bound="157 (and 156) one-byte files with 99 volumes (256 resp. 255 shards): every volume found; the last volume alone repairs a lost file"),
+            J("par1", "C04_damage_after_verify", timeout=1500, bound="PAR1: Verify of an intact 16388-byte file, one byte changed in place at offset 5 / 16384 / 16387, Verify and Repair again in the same process"),
         ],
     ),
     "C10": dict(
@@ -132,6 +133,7 @@ PROPS = {
             J("par1", "C10_writer", bound="1..3 files (non-ASCII and surrogate-pair names, an empty file), 1..2 volumes, symbolic contents"),
             J("par1", "C10_reader", bound="2 saved entries + 1 non-saved entry at every position, a comment in the index, 2 volumes; one saved file lost"),
             J("par1", "C10_reader_many", timeout=1500, args=["-max-steps", "600000000"], bound="reference-written index with 255 / 256 / 262 entries (2 saved, the rest not saved), 2 volumes, both saved files lost"),
+            J("par1", "C10_two_shapes", bound="two PAR1 sets of different shapes in one process (1x12 then 11x2 files x volumes, 11x2 then 1x12, 2x3 then 3x2): the second verified incl. the full parity check and repaired"),
         ],
     ),
     "C20": dict(
@@ -211,6 +213,7 @@ PROPS = {
             J("par2", "C02_repair_arbitrary", bound="1 file of 4/5/8 bytes, 1 block, arbitrary current content of length 0..len+1, a bystander file present, double-check on/off"),
             J("par2", "C02_garbage_parity", bound="recovery block replaced by arbitrary bytes with a recomputed packet hash; file intact / missing / one slice overwritten"),
             J("par2", "C02_big_garbage_parity", timeout=1500, bound="16388-byte file, slice size 8192, last slice lost, first byte of the recovery block xor a non-zero symbolic value with the packet hash recomputed; double-check on/off"),
+            J("par2", "C02_two_generations", timeout=1500, bound="Repair of generation A, then of generation B with A's recovery file beside it and its last slice lost"),
             J("par1", "C04_roundtrip_unicode", bound="PAR1: write log of Repair for every damage subset of a 2-file, 2-volume set (the C04 harness)"),
         ],
     ),
@@ -220,6 +223,7 @@ PROPS = {
         jobs=[
             J("par2", "C03_verify_one", bound="1 file of 4/5/8 bytes, 1 block present or deleted, 6 structured damage kinds"),
             J("par2", "C03_verify_two", bound="2 files of 4 and 5 bytes, 2 blocks, per-file damage or files swapped"),
+            J("par2", "C03_two_generations", timeout=1500, bound="two generations of a 16388-byte file (same name, length, first 16 KiB; slice size 8192) verified one after the other; the second intact, or with the first generation's file in its place"),
             J("par2", "C03_verify_arbitrary", bound="1 file of 4/5 bytes, arbitrary current content"),
             J("par2", "C16_locmap", must_reach=["hit"], bound="the real checksumShardLocationMap.put/get with 2..3 registered slices of 8 symbolic bytes, arbitrary (data-independent) 32-bit CRC values incl. equal CRCs with different content, one symbolic query window"),
             J("par2", "C06_volume_names", bound="2 files, blocks 0..2 spread over 1..3 volume files named s.<anything>.par2 (spaces, extra dots)"),
@@ -248,6 +252,7 @@ PROPS = {
             J("par2", "C06_basename", bound="the real newDecoder + LoadParityData with an index path whose base name is 1..3 symbolic bytes over {x p a r 2 . space}: prefix and suffix handed to the directory search"),
             J("par2", "C06_volume_names", bound="2 files, blocks 0..2 spread over 1..3 volume files named s.<anything>.par2 (spaces, extra dots)"),
             J("par2", "C06_high_exponents", must_reach=["repaired"], timeout=1500, bound="exponent pairs (40000,1), (2,65534), (32768,32769), 5-byte file missing, plain packet order"),
+            J("par2", "C06_two_exponent_sets", bound="two reference-written sets with equal counts and different exponents ({0,1}/{0,3}, {0,1}/{2,7}, {1,0}/{5,100}) repaired one after the other"),
         ],
     ),
     "C17": dict(
@@ -270,6 +275,7 @@ PROPS = {
             J("par2", "C18_verify_faults", bound="2 files, 2 blocks, intact or one file missing: fault at each read, or at the directory listing"),
             J("par2", "C18_repair_faults", bound="2 files both needing repair, 3 blocks: fault at each read, the listing, or each write (torn 0 / 2 bytes / untouched)"),
             J("par2", "C18_index_only_faults", bound="intact 5-byte file, every recovery file removed: Verify / Repair (double-check on/off) with a fault at each read and each directory listing the code makes in that state"),
+            J("par2", "C18_fault_then_other_set", bound="write fault (torn or not) during the Repair of one set, then a fault-free Repair of another set in the same process"),
             J("par1", "C18_par1_create_faults", bound="PAR1 Create (2 files, 2 volumes): fault at each of 2 reads / 3 writes (torn or not); PAR1 Verify: fault at each read"),
             J("par1", "C18_par1_faults", bound="PAR1 Repair: fault at each read or at the write (torn 0 / 1 byte / untouched)"),
         ],
@@ -281,6 +287,7 @@ PROPS = {
             J("par2", "C13_truncate_index", bound="index file cut at every length 0..len; data present or missing"),
             J("par2", "C13_truncate_volume", bound="volume file cut at every length"),
             J("par2", "C13_big_truncate", bound="one protected file of 16388 concrete bytes, slice size 8192, 1 block; the data file cut to 0, 1, 8191, 8192, 16383, 16384, 16385, 16387 bytes, or one byte changed in place at offset 0, 16383, 16384, 16387"),
+            J("par2", "C13_damage_after_verify", bound="Verify of the intact set, then one byte flipped inside the recovery packet body, Verify and Repair again in the same process"),
             J("par2", "C13_truncate_data", bound="data file of 9 bytes cut at every length"),
             J("par2", "C13_corrupt_byte", bound="any one byte of the index or volume file replaced by any other value"),
             J("par2", "C13_delete_subset", bound="every file of a 2-file, 2-block set present / deleted / emptied (3^5 states)"),
@@ -297,6 +304,7 @@ PROPS = {
             J("par2", "C19_main_fields", bound="slice size x recovery-set count over boundary lists"),
             J("par2", "C19_desc_fields", bound="declared file length over a boundary list"),
             J("par2", "C19_recovery_fields", bound="exponent over a boundary list x recovery data of 0, 4, 8 bytes"),
+            J("par2", "C06_two_exponent_sets", bound="two reference-written sets with equal counts and different exponents repaired one after the other (state kept between sets must not depend on counts alone)"),
             J("par2", "C19_missing_packets", bound="each mandatory packet type removed / main duplicated"),
             J("par2", "C19_file_hash", bound="declared whole-file MD5 = 16 arbitrary bytes, valid recovery blocks 0 and 1, data file missing", must_reach=["written", "rejected"]),
             J("par1", "C19_par1_fields", bound="PAR1: volume number, file count, list size, data offset, data size, entry size, file length at boundary values in the index or a volume, control hash recomputed"),
